@@ -53,7 +53,8 @@ macro_rules! operand {
     }};
 }
 
-/// A smaller sparse operand for the 64-bit divider circuits: |x| < 2^8 of either sign, MIN, MAX.
+/// A smaller sparse operand for the 32- and 64-bit multiplier / divider circuits: |x| < 2^8 of
+/// either sign, MIN, MAX (the 5-form sparse operand took 150-1300 s at 32 bits depending on the run).
 macro_rules! operand_small {
     ($ty:ty) => {{
         let s: u8 = kani::any();
@@ -137,20 +138,20 @@ macro_rules! integer_arith {
                     check(IntegerOperation::Sub, a, b)
                 }
                 | 2 => {
-                    let wide = <$ty>::BITS == 64 && !$muldiv_full;
+                    let wide = <$ty>::BITS >= 32 && !$muldiv_full;
                     let a = if wide { operand_small!($ty) } else { operand!($ty, $muldiv_full || a_full) };
                     let b = if wide { operand_small!($ty) } else { operand!($ty, $muldiv_full || a_full) };
                     check(IntegerOperation::Mul, a, b)
                 }
                 | 3 => {
-                    let wide = <$ty>::BITS == 64 && !$muldiv_full;
+                    let wide = <$ty>::BITS >= 32 && !$muldiv_full;
                     let a = if wide { operand_small!($ty) } else { operand!($ty, $muldiv_full || a_full) };
                     let b = if wide { operand_small!($ty) } else { operand!($ty, $muldiv_full || a_full) };
                     kani::assume(b != 0);
                     check(IntegerOperation::Div, a, b)
                 }
                 | 4 => {
-                    let wide = <$ty>::BITS == 64 && !$muldiv_full;
+                    let wide = <$ty>::BITS >= 32 && !$muldiv_full;
                     let a = if wide { operand_small!($ty) } else { operand!($ty, $muldiv_full || a_full) };
                     let b = if wide { operand_small!($ty) } else { operand!($ty, $muldiv_full || a_full) };
                     kani::assume(b != 0);
@@ -304,7 +305,7 @@ integer_harnesses!(c05_h3_arith_int16, c05_h3_trap_int16, c05_h4_cmp_int16, i16,
 //@ property: C05
 //@ tier: quick
 //@ encodes: BuiltinRuntime::invoke (dispatch), impls::integer_arithmetic, integer_arithmetic_result!, impls::ret
-//@ sym: Add/Sub: a, b: i32 (all pairs); Mul/Div/Mod: both operands sparse (8 symbolic bits + 3 bits of form each: |x| < 2^8 either sign, MAX - s, MIN + s, powers of two) - includes MIN / -1, MAX * 2, every power-of-two boundary
+//@ sym: Add/Sub: a, b: i32 (all pairs); Mul/Div/Mod: both operands from {|x| < 2^8 of either sign (8 symbolic bits), MIN, MAX} - includes MIN / -1, MAX * small, small / small
 //@ oracle: i32::wrapping_{add,sub,mul,div,rem} (the property defines the semantics as Rust's same-named primitive); result literal carries the Int32 variant
 //@ bounds: Add/Sub all operand values; Mul/Div/Mod sparse operands (full-width multiplier/divider equivalence does not finish in the SAT back end at this width; 16-bit full is in the thorough tier); unwind 3
 //@ stubs: std::hash::RandomState::new -> fixed keys; impls::random_int -> unreachable; <SemValue as Clone>::clone -> derived clone restricted to thunks with a checked assertion that nothing else is cloned; overlay rewrite args: Vec -> ManuallyDrop<Vec> (drop elision)
@@ -448,7 +449,7 @@ integer_harnesses!(c05_h3_arith_uint16, c05_h3_trap_uint16, c05_h4_cmp_uint16, u
 //@ property: C05
 //@ tier: quick
 //@ encodes: BuiltinRuntime::invoke (dispatch), impls::integer_arithmetic, integer_arithmetic_result!, impls::ret
-//@ sym: Add/Sub: a, b: u32 (all pairs); Mul/Div/Mod: both operands sparse (8 symbolic bits + 3 bits of form each: |x| < 2^8 either sign, MAX - s, MIN + s, powers of two) - includes MIN / -1, MAX * 2, every power-of-two boundary
+//@ sym: Add/Sub: a, b: u32 (all pairs); Mul/Div/Mod: both operands from {|x| < 2^8 of either sign (8 symbolic bits), MIN, MAX} - includes MIN / -1, MAX * small, small / small
 //@ oracle: u32::wrapping_{add,sub,mul,div,rem} (the property defines the semantics as Rust's same-named primitive); result literal carries the UInt32 variant
 //@ bounds: Add/Sub all operand values; Mul/Div/Mod sparse operands (full-width multiplier/divider equivalence does not finish in the SAT back end at this width; 16-bit full is in the thorough tier); unwind 3
 //@ stubs: std::hash::RandomState::new -> fixed keys; impls::random_int -> unreachable; <SemValue as Clone>::clone -> derived clone restricted to thunks with a checked assertion that nothing else is cloned; overlay rewrite args: Vec -> ManuallyDrop<Vec> (drop elision)
